@@ -252,6 +252,41 @@ C_MUTANTS = [
     ('C21', ['a fourth writer of destructor'], 'src/c/_cffi_backend.c',
      'static int cdatagcp_traverse(CDataObject_gcp *cd, visitproc visit, void *arg)\n{',
      'static int cdatagcp_traverse(CDataObject_gcp *cd, visitproc visit, void *arg)\n{\n    if (arg == (void *)cd) cd->destructor = cd->origobj;'),
+    ('C14', ['arg slot'], 'src/c/_cffi_backend.c',
+     '            a_src = args + i * 8;\n            if (a_ct->ct_flags & (CT_IS_LONGDOUBLE | CT_STRUCT | CT_UNION))',
+     '            a_src = args + i * 8;\n            if (a_ct->ct_flags & (CT_IS_LONGDOUBLE | CT_STRUCT))'),
+    ('C14', ['arg type'], 'src/c/_cffi_backend.c',
+     '        CTypeDescrObject *a_ct = SIGNATURE(2 + i);', '        CTypeDescrObject *a_ct = SIGNATURE(2 + (i ? i - 1 : 0));'),
+    ('C14', ['arg order'], 'src/c/_cffi_backend.c',
+     '        PyTuple_SET_ITEM(py_args, i, a);', '        PyTuple_SET_ITEM(py_args, n - 1 - i, a);'),
+    ('C14', ['result type'], 'src/c/_cffi_backend.c',
+     '    if (convert_from_object_fficallback(result, SIGNATURE(1), py_res,\n                                        decode_args_from_libffi) < 0) {',
+     '    if (convert_from_object_fficallback(result, SIGNATURE(1), py_res,\n                                        1) < 0) {'),
+    ('C14', ['exception escapes'], 'src/c/_cffi_backend.c',
+     '        if (res1 != NULL) {\n            if (res1 != Py_None)\n                convert_from_object_fficallback(result, SIGNATURE(1), res1,\n                                                decode_args_from_libffi);\n            Py_DECREF(res1);\n        }\n        if (!PyErr_Occurred()) {',
+     '        if (res1 != NULL) {\n            if (res1 != Py_None)\n                convert_from_object_fficallback(result, SIGNATURE(1), res1,\n                                                decode_args_from_libffi);\n            Py_DECREF(res1);\n        }\n        if (res1 != NULL) {'),
+    ('C14', ['error value skipped'], 'src/c/_cffi_backend.c',
+     ' error:\n    if (SIGNATURE(1)->ct_size > 0) {\n        py_rawerr = PyTuple_GET_ITEM(cb_args, 2);',
+     ' error:\n    if (SIGNATURE(1)->ct_size > 8) {\n        py_rawerr = PyTuple_GET_ITEM(cb_args, 2);'),
+    ('C14', ['error bytes of the wrong member'], 'src/c/_cffi_backend.c',
+     '        py_rawerr = PyTuple_GET_ITEM(cb_args, 2);\n        memcpy(result, PyBytes_AS_STRING(py_rawerr),\n                       PyBytes_GET_SIZE(py_rawerr));',
+     '        py_rawerr = PyTuple_GET_ITEM(cb_args, 2);\n        memcpy(result, PyBytes_AS_STRING(py_rawerr),\n                       PyBytes_GET_SIZE(py_rawerr) - 1);'),
+    ('C14', ['onerror result ignored when None check inverted'], 'src/c/_cffi_backend.c',
+     '            if (res1 != Py_None)\n                convert_from_object_fficallback(result, SIGNATURE(1), res1,',
+     '            if (res1 == Py_None)\n                convert_from_object_fficallback(result, SIGNATURE(1), res1,'),
+    ('C14', ['info tuple order'], 'src/c/_cffi_backend.c',
+     '    infotuple = Py_BuildValue("OOOO", ct, ob, py_rawerr, onerror_ob);',
+     '    infotuple = Py_BuildValue("OOOO", ct, ob, onerror_ob, py_rawerr);'),
+    ('C14', ['error bytes not cleared'], 'src/c/_cffi_backend.c',
+     '    memset(PyBytes_AS_STRING(py_rawerr), 0, size);\n    if (error_ob != Py_None) {',
+     '    if (error_ob != Py_None) {'),
+    ('C14', ['error bytes too small'], 'src/c/_cffi_backend.c',
+     '    if (size < (Py_ssize_t)sizeof(ffi_arg))\n        size = sizeof(ffi_arg);\n    py_rawerr = PyBytes_FromStringAndSize(NULL, size);',
+     '    py_rawerr = PyBytes_FromStringAndSize(NULL, size);'),
+    ('C14', ['generated slot offset'], 'src/cffi/recompiler.py',
+     "prnt('  *(%s)(p + %d) = %s;' % (type.get_c_name('*'), i*8, arg))", "prnt('  *(%s)(p + %d) = %s;' % (type.get_c_name('*'), i*4, arg))"),
+    ('C14', ['generated by-address set'], 'src/cffi/recompiler.py',
+     "                    tp.name == 'long double')", "                    tp.name in ('long double', 'double'))"),
     ('C03', ['export table'], 'src/c/_cffi_backend.c',
      '    _cffi_to_c_i32,\n    _cffi_to_c_u32,', '    _cffi_to_c_u32,\n    _cffi_to_c_i32,'),
 ]
